@@ -133,7 +133,8 @@ def discharge_texts(items, timeout_ms=20000, jobs=None, use_cvc5=True, cvc5_all=
             for key, res, secs, extra in pool.imap_unordered(_z3_worker, work):
                 results[key] = dict(z3=res, z3_s=secs, z3_extra=extra)
     if use_cvc5:
-        again = [(k, uniq[k]["smt2"], timeout_ms) for k in order
+        # second opinion on everything (thorough tier): a short budget is enough to expose a contradiction
+        again = [(k, uniq[k]["smt2"], min(timeout_ms, 10000) if cvc5_all and results[k]["z3"] == "unsat" else timeout_ms) for k in order
                  if uniq[k]["kind"] != "vacuity" and uniq[k]["oid"] not in brief
                  and (cvc5_all or results[k]["z3"] in ("unknown", "error"))]
         if again:
